@@ -222,6 +222,49 @@ def oracle(sc, o):
     for t, mid, kind, val in resumes:
         if kind == "throw" and val == "StopIteration":
             bad.append(("stopiteration-thrown-into-plan-below", f"message {mid} received throw StopIteration"))
+    # (g) a `wait` on a group is answered True only when every status put into that group before it (and not
+    #     waited for earlier) has finished; statuses carry creation / finish ticks
+    def _index(st, out):
+        if st is None:
+            return out
+        if st["k"] == "msg":
+            out[st.get("id")] = st
+        elif st["k"] == "seq":
+            for x in st["body"]:
+                _index(x, out)
+        elif st["k"] == "try":
+            for x in (st["body"], st.get("handler"), st.get("fin")):
+                _index(x, out)
+        return out
+
+    idx = _index(sc["plan"], {})
+    mt = list(zip(o["ticks"]["msgs"], o["msgs"]))
+    grp_of_status = []
+    for stt in o.get("statuses", []):
+        if len(stt) < 6:
+            break
+        created = stt[4]
+        before = [m for t, m in mt if t <= created]
+        g = None
+        if before and before[-1][3] in idx and before[-1][0] in ("set", "trigger"):
+            g = idx[before[-1][3]].get("kw", {}).get("group")
+        grp_of_status.append(g)
+    if len(grp_of_status) == len(o.get("statuses", [])):
+        for (ty, y) in zip(o["ticks"]["yields"], o["yields"]):
+            mid, kind, val = y[0], y[1], y[2]
+            if kind != "send" or val is not True or mid not in idx or idx[mid]["cmd"] != "wait":
+                continue
+            g = idx[mid].get("kw", {}).get("group")
+            # the wait message's own execution tick (last execution before this answer)
+            tw = max([t for t, m in mt if m[3] == mid and t < ty], default=None)
+            if tw is None:
+                continue
+            earlier_waits = [t for t, m in mt if m[0] == "wait" and m[3] in idx and idx[m[3]].get("kw", {}).get("group") == g and t < tw]
+            since = max(earlier_waits, default=0)
+            for k, stt in enumerate(o["statuses"]):
+                if grp_of_status[k] == g and since < stt[4] < tw and (stt[5] is None or stt[5] > ty):
+                    bad.append((f"wait-returned-before-status-finished", f"wait on group {g!r} (message {mid}) was answered True at tick {ty} while status#{k} ({stt[0]}.{stt[1]}, created at tick {stt[4]}) of that group had not finished"))
+                    break
     return bad
 
 
